@@ -415,7 +415,7 @@ def run(prop, tier, seed, replay=None, jobs=None, keep=False):
         "wall_s": round(wall, 2),
         "violations": len(new),
     }
-    if not replay:
+    if not replay and not os.environ.get("VF_NO_EVIDENCE"):
         os.makedirs(os.path.join(VERIF, "evidence"), exist_ok=True)
         with open(os.path.join(VERIF, "evidence", prop + ".json"), "w") as f:
             json.dump(ev, f, indent=1, sort_keys=True, default=_jdefault)
